@@ -181,6 +181,11 @@ func H07() {
 	} else {
 		want = h07CountIE(alpha, reqs, r.Length)
 	}
+	if prime := vChoice("prime", vParam("primes", 1)); prime > 0 && len(r.RequireSets) > 0 {
+		sib := h06Sibling(r, prime)
+		sib.Entropy()
+		vReach("primed")
+	}
 	rc := r
 	rc.buildCharacterList()
 	var got *bigInt
